@@ -168,7 +168,7 @@ E(codes, tag, reg) == [codes |-> codes, tag |-> tag, reg |-> reg, alt |-> ""]
 E2(codes, tag, alt) == [codes |-> codes, tag |-> tag, reg |-> -1, alt |-> alt]     \* either of two lines
 
 InjKinds == {"saved-not-restored", "sp-not-restored", "ra-not-restored", "temp-after-call",
-             "never-assigned-in-function", "never-assigned-in-main",
+             "never-assigned-in-function", "never-assigned-in-main", "never-assigned-after-ecall",
              "unused-assignment", "write-to-zero", "stack-at-entry-sp", "stack-above-entry-sp", "in-data-segment",
              "unknown-ecall", "unreachable-after-ret", "unreachable-after-jump", "jump-into-function",
              "fall-through-into-function", "function-first-in-program"}
@@ -210,6 +210,9 @@ Inject(p, kind, fn, var) ==
     [] kind = "never-assigned-in-main" ->
         IF fn = "F1" /\ Has(p, "main:arg1") THEN yes(InsAfter(p, Idx(p, "main:arg1"), << I(CASE var = 1 -> "add a0, a0, t4" [] var = 2 -> "addi t4, t4, 1" [] OTHER -> "sw t4, -4(sp)", "inj") >>),
                               E({"invalid-use-before-assignment"}, "inj", 29)) ELSE no
+    [] kind = "never-assigned-after-ecall" ->      \* the never-assigned temporary is read behind an environment call
+        IF fn = "F1" /\ Has(p, "main:print1") THEN yes(InsAfter(p, Idx(p, "main:print1"), << I("add a0, a0, t4", "inj"), I("li a7, 1", ""), I("ecall", "") >>),
+                                                        E({"invalid-use-before-assignment", "invalid-use-after-call"}, "inj", 29)) ELSE no
     [] kind = "unused-assignment" ->
         IF Has(p, t("ret")) THEN yes(InsAfter(p, Idx(p, t("ret")) - 1, << I(CASE var = 1 -> "li t2, 9" [] var = 2 -> "mv t2, a0" [] OTHER -> "slli t2, a0, 3", "inj") >>), E({"dead-assignment"}, "inj", 7)) ELSE no
     [] kind = "write-to-zero" ->
